@@ -973,11 +973,15 @@ impl<'source> Parser<'source> {
                 }
                 Some(_) => {
                     self.consume_token_with_context(context); // Token::Subtract
+                    let start_span = self.current_span();
                     if let Some(term) = self.parse_term(&ExpressionContext::restricted())? {
-                        self.push_node(Node::UnaryOp {
-                            op: AstUnaryOp::Negate,
-                            value: term,
-                        })
+                        self.push_node_with_start_span(
+                            Node::UnaryOp {
+                                op: AstUnaryOp::Negate,
+                                value: term,
+                            },
+                            start_span,
+                        )
                     } else {
                         self.consume_token_and_error(SyntaxError::ExpectedExpression)
                     }
